@@ -1,6 +1,6 @@
 (* Lemmas_PedRun.v — --pedantic only rejects, whole launcher: run_file with the option either produces
    exactly the observation it produces without it, or stops with one pedantic Error and exit status 1. *)
-From PE2 Require Import Run Lemmas_Lexer Lemmas_PedParser Lemmas_Ped.
+From PE2 Require Import Run Lemmas_Lexer Lemmas_PedParser Lemmas_Ped Lemmas_Out.
 Local Open Scope Z_scope.
 
 Definition obs_ped_reject (o : observation) : Prop :=
@@ -96,5 +96,79 @@ Proof.
   cbn [set_files s_files iterM ret]. unfold out_string. cbn [s_out set_files set_out s_fs rev app]. rewrite Hf, Ho.
   cbn [init_state s_out s_fs]. rewrite app_nil_r, rev_involutive.
   rewrite concat_app. cbn [List.concat]. rewrite app_nil_r. reflexivity.
+Qed.
+
+(* ---- a run-time rejection: everything printed before the construct, a blank line, the Error; and that text
+        without the blank line is a prefix of what the program prints without the option ---- *)
+Lemma close_file_effect_out f s0 : exists s1, close_file_effect f s0 = (Ok Datatypes.tt, s1) /\ s_out s1 = s_out s0.
+Proof.
+  unfold close_file_effect. destruct (of_mode f); try (eexists; split; reflexivity).
+  destruct (of_modified f); eexists; split; reflexivity.
+Qed.
+Lemma close_all_files_out s : s_out (snd (close_all_files s)) = s_out s.
+Proof.
+  unfold close_all_files, bind, gets. cbn [fst snd].
+  assert (G : forall l s0, exists s1, iterM close_file_effect l s0 = (Ok Datatypes.tt, s1) /\ s_out s1 = s_out s0).
+  { induction l as [|f r IH]; intros s0; cbn [iterM]; [eexists; split; reflexivity|].
+    unfold bind. destruct (close_file_effect_out f s0) as [s1 [E1 H1]]. rewrite E1.
+    destruct (IH s1) as [s2 [E2 H2]]. exists s2. split; [exact E2|congruence]. }
+  destruct (G (s_files s) s) as [s1 [E H]]. rewrite E. cbn. exact H.
+Qed.
+
+Lemma run_main_prefix b root s :
+  run_main true lim fuel false b root s = run_main false lim fuel false b root s \/
+  exists d s1, run_main true lim fuel false b root s = (EDiag d, s1) /\ d_kind d = DPedantic /\
+               out_ext s1 (snd (run_main false lim fuel false b root s)).
+Proof.
+  unfold run_main. destruct (run_block_ped_output_prefix false lim fuel b root s) as [E|[[d [s' [E [Hk Hc]]]] HI]].
+  - rewrite E. left. reflexivity.
+  - rewrite E in *. cbn [snd] in HI. right. exists d, s'. split; [reflexivity|]. split; [exact Hk|].
+    destruct (run_block false false lim fuel b root s) as [[u|f] s2]; cbn [snd] in *; [exact HI|].
+    destruct f; cbn [snd]; try exact HI.
+    + pose proof (@rt_error_out_ext unit t root s2) as G. destruct (@rt_error unit t root s2) as [[u|f] s3]; cbn [snd] in *;
+        [eapply out_ext_trans; eassumption|]. destruct f; cbn [snd]; eapply out_ext_trans; eassumption.
+    + pose proof (@rt_error_out_ext unit t root s2) as G. destruct (@rt_error unit t root s2) as [[u|f] s3]; cbn [snd] in *;
+        [eapply out_ext_trans; eassumption|]. destruct f; cbn [snd]; eapply out_ext_trans; eassumption.
+Qed.
+
+Theorem run_time_rejection_output_prefix content stdin fs rnd toks b ps :
+  lex true (content ++ [ch_nl]) = inl toks -> parse_program true toks = POk b ps ->
+  run_file true lim fuel content stdin fs rnd = run_file false lim fuel content stdin fs rnd \/
+  (obs_ped_reject (run_file true lim fuel content stdin fs rnd) /\
+   exists pre more, ob_out (run_file true lim fuel content stdin fs rnd) = pre ++ [ch_nl] /\
+                    ob_out (run_file false lim fuel content stdin fs rnd) = pre ++ more).
+Proof.
+  intros Hl Hp.
+  assert (Hl0 : lex false (content ++ [ch_nl]) = inl toks) by (apply lex_ped_only_rejects; exact Hl).
+  assert (Hp0 : parse_program false toks = POk b ps).
+  { destruct (parse_program_ped_only_rejects toks) as [E|[t [s0 E]]]; [rewrite <- E; exact Hp|rewrite Hp in E; discriminate]. }
+  unfold run_file, run_source. rewrite Hl, Hl0, Hp, Hp0. cbv zeta.
+  set (s1 := emit_warnings (p_warns ps) (init_state stdin fs rnd)).
+  destruct (run_main_prefix b root_id s1) as [E|[d [sp [E [Hk HI]]]]].
+  - rewrite E. left. reflexivity.
+  - right. rewrite E. split; [apply finish_diag; exact Hk|].
+    exists (out_string sp).
+    destruct (run_main false lim fuel false b root_id s1) as [r2 s2]. cbn [snd] in HI.
+    assert (Hfin : forall r x, ob_out (finish r (snd (close_all_files x)) [] []) = out_string x).
+    { intros r x. unfold finish.
+      replace (let (_, x0) := close_all_files (snd (close_all_files x)) in x0) with (snd (close_all_files (snd (close_all_files x)))) by (destruct (close_all_files (snd (close_all_files x))); reflexivity).
+      destruct r; cbn [ob_out]; unfold out_string; rewrite !close_all_files_out; reflexivity. }
+    destruct (out_ext_prefix _ _ HI) as [m Hm].
+    destruct r2 as [|d2|st2].
+    + exists m. split.
+      * replace (match close_all_files (set_out ([ch_nl] :: s_out sp) sp) with (_, x) => x end) with (snd (close_all_files (set_out ([ch_nl] :: s_out sp) sp))) by (destruct (close_all_files _); reflexivity).
+        rewrite Hfin. unfold out_string. cbn [s_out set_out rev]. rewrite concat_app. cbn [List.concat]. rewrite app_nil_r. reflexivity.
+      * replace (match close_all_files s2 with (_, x) => x end) with (snd (close_all_files s2)) by (destruct (close_all_files _); reflexivity).
+        rewrite Hfin. exact Hm.
+    + exists (m ++ [ch_nl]). split.
+      * replace (match close_all_files (set_out ([ch_nl] :: s_out sp) sp) with (_, x) => x end) with (snd (close_all_files (set_out ([ch_nl] :: s_out sp) sp))) by (destruct (close_all_files _); reflexivity).
+        rewrite Hfin. unfold out_string. cbn [s_out set_out rev]. rewrite concat_app. cbn [List.concat]. rewrite app_nil_r. reflexivity.
+      * replace (match close_all_files (set_out ([ch_nl] :: s_out s2) s2) with (_, x) => x end) with (snd (close_all_files (set_out ([ch_nl] :: s_out s2) s2))) by (destruct (close_all_files _); reflexivity).
+        rewrite Hfin. unfold out_string in *. cbn [s_out set_out rev]. rewrite concat_app. cbn [List.concat]. rewrite app_nil_r, Hm, app_assoc. reflexivity.
+    + exists m. split.
+      * replace (match close_all_files (set_out ([ch_nl] :: s_out sp) sp) with (_, x) => x end) with (snd (close_all_files (set_out ([ch_nl] :: s_out sp) sp))) by (destruct (close_all_files _); reflexivity).
+        rewrite Hfin. unfold out_string. cbn [s_out set_out rev]. rewrite concat_app. cbn [List.concat]. rewrite app_nil_r. reflexivity.
+      * replace (match close_all_files s2 with (_, x) => x end) with (snd (close_all_files s2)) by (destruct (close_all_files _); reflexivity).
+        rewrite Hfin. exact Hm.
 Qed.
 End Main.
